@@ -75,10 +75,12 @@ def run_table_job(job, cyrt):
     cats = [Category.parse('C%d' % i) for i in range(ncats)]
     T = job['T']
     btab, utab = {}, {}
+    def names(lab):      # 'label' (symbol = LABEL) or 'label|symbol' (a pair from a real grammar's vocabulary, for the printers' label tables)
+        return tuple(lab.split('|', 1)) if '|' in lab else (lab, lab.upper())
     for x, y, c, h, lab in job['binary']:
-        btab.setdefault((x, y), []).append(CombinatorResult(cats[c], lab, lab.upper(), bool(h)))
+        btab.setdefault((x, y), []).append(CombinatorResult(cats[c], names(lab)[0], names(lab)[1], bool(h)))
     for x, c, lab in job['unary']:
-        utab.setdefault(x, []).append(CombinatorResult(cats[c], lab, lab.upper(), True))
+        utab.setdefault(x, []).append(CombinatorResult(cats[c], names(lab)[0], names(lab)[1], True))
     calls = []
     bf, uf = TableBinary(btab), TableUnary(utab)
     doc, scores = [], []
@@ -99,6 +101,19 @@ def run_table_job(job, cyrt):
         import traceback
         out['error'] = '%s: %s | %s' % (type(e).__name__, e, traceback.format_exc()[-800:])
         return out
+    if job.get('render'):
+        # what the parser really returned, handed to the printers (C19): every format must render it
+        from depccg.printer import to_string
+        from depccg.lang import set_global_language_to
+        set_global_language_to(job.get('lang', 'en'))
+        errs = {}
+        for f in job['render']:
+            try:
+                to_string(res, format=f)
+            except Exception as e:
+                errs[f] = '%s: %s' % (type(e).__name__, str(e)[:120])
+        out['render_errors'] = errs
+        out['result_list_lengths'] = [len(x) for x in res]
     sents = []
     for toks, trees in zip(doc, res):
         ts = []
